@@ -292,5 +292,5 @@ pub fn run(r: &mut Run) {
     r.assumptions.push("reuses the C01 reference model and tolerance classes; see C01 assumptions".into());
     r.assumptions.push("the refused commit is produced by registering writes directly with the TransactionManager (hook H5), because sessions never register their writes".into());
     let max_body = if r.is_thorough() { 30 } else { 15 };
-    r.subcheck("transaction", r.cases(6000, 3_000_000), move || case_strategy(max_body), run_case);
+    r.subcheck("transaction", r.cases(40_000, 3_000_000), move || case_strategy(max_body), run_case);
 }
